@@ -317,6 +317,15 @@ def oracle(case):
             kw2["absdelta"] = kw2["absdelta"] * sc
         if _disc(_run_real(case, "eager", kw2, pinned)) != _disc(re_):
             stable = False
+    # rounding-dominated tail: once the gradient is at rounding level the energy comparisons of the line search are
+    # decided by the last bits (op-by-op vs fused evaluation); nothing is claimed about agreement there
+    if stable and "error" not in re_ and re_["nit"] >= 1:
+        prev = _run_real(case, "eager", dict(_kwargs(case, pinned), maxiter=re_["nit"] - 1, miniter=None), pinned) \
+            if re_["nit"] > 1 else {"x": x0}
+        if "error" not in prev:
+            gp = np.array(jax.grad(fflat)(jnp.array(prev["x"], dtype=float)))
+            if float(gp @ gp) <= 1e-9 * scale:
+                stable = False
     if stable and not case.get("fragile"):
         if ("error" in re_) != ("error" in rs_):
             return ("eager and compiled Newton-CG disagree on failure", _sig("eager_static_disagree", what="failure"))
